@@ -5,12 +5,22 @@
 # `verif` build tag, then runs the property's workload under its monitors.
 set -u
 PROP="$1"; TIER="${2:-quick}"
+REPLAY=""
+if [ "$TIER" = "replay" ]; then
+    # run.sh <prop> replay <replay.json>: re-run the tier and seed recorded in the witness file and
+    # say whether a violation with the same signature shows up again (schedule-dependent
+    # violations may need several attempts: the answer is information, not a verdict)
+    REPLAY="$3"
+    TIER=$(python3 -c "import json,sys; print(json.load(open(sys.argv[1]))['tier'])" "$REPLAY") || exit 2
+    export VERIF_SEED=$(python3 -c "import json,sys; print(json.load(open(sys.argv[1]))['seed'])" "$REPLAY")
+    export VERIF_OUT_DIR=$(mktemp -d /tmp/replay.XXXXXX)
+fi
 [ -n "${VERIF_TIER:-}" ] && [ "$#" -lt 2 ] && TIER="$VERIF_TIER"
 VERIF_DIR="$(cd "$(dirname "$0")" && pwd)"
 REPO="${VERIF_REPO:-/repo}"
-SEED="${VERIF_SEED:-1}"
 export GOFLAGS=-mod=mod GOPROXY=off GOSUMDB=off GOTOOLCHAIN=local CGO_ENABLED=1
 mkdir -p "$VERIF_DIR/.build" "$VERIF_DIR/.work"
+SEED="${VERIF_SEED:-1}"
 cd "$VERIF_DIR/harness" || exit 2
 MODFLAG=""
 if [ "$REPO" != "/repo" ]; then
@@ -42,4 +52,12 @@ if [ "$("$BIN" -needs-race "$PROP")" = "yes" ]; then
 fi
 "$RUNBIN" -prop "$PROP" -tier "$TIER" -seed "$SEED" -verif "$VERIF_DIR"
 RC=$?
+if [ -n "$REPLAY" ]; then
+    if [ -f "$VERIF_OUT_DIR/replays/$(basename "$REPLAY")" ]; then
+        echo "REPRODUCED: $(basename "$REPLAY") (same signature, tier $TIER, seed $SEED)"
+    else
+        echo "NOT REPRODUCED in this attempt: $(basename "$REPLAY") (tier $TIER, seed $SEED)"
+    fi
+    rm -rf "$VERIF_OUT_DIR"
+fi
 exit $RC
